@@ -166,3 +166,22 @@ def fill(claim, na):
           "inbound) is tracked in the set that stop/selection disconnect; the stop path cannot raise on a stale timer. NOT decided: that "
           "the transport eventually reports the loss.",
           "T1, T2", "DESIGN.md 4/C17")
+    claim("C19",
+          "literal-table check of raw_words, loop/parity shape rules, regex parse-tree check of the nameplate pattern, CFG validate-first ordering, sibling agreement of the three code entry points, Automat table rules",
+          "Decides: raw_words is exactly 256 entries 00..FF of two letters-only words, 256 distinct per list, lists disjoint, derived "
+          "tables built from it; choose_words appends one word per range(length) iteration from a fresh os.urandom(1), odd list first, "
+          "joined by '-'; get_completions uses the same parity on the hyphen count and offers only prefix-extending words; no `random` "
+          "import; validation precedes every state change, spaces rejected, the nameplate regex (parse tree) is digits-only anchored at "
+          "start and END OF STRING; each code entry point raises OnlyOneCodeError when a code was started and sets the flag first; "
+          "Input raises for words-before-nameplate and anything after the words; allocated code = nameplate-words. NOT decided: "
+          "statistical uniformity of os.urandom.",
+          "T1, T2 (os.urandom, re)", "DESIGN.md 4/C19")
+    claim("C20",
+          "flow-sensitive JSON type-guard abstract interpretation (type lattice with per-key facts, isinstance/in narrowing, per-field namedtuple values) + encoder/decoder key-set agreement",
+          "Decides the never-raises clause for the listed functions: from 'list of JSON objects with arbitrary keys/values' in hint "
+          "position, every raising operation reachable through parse_tcp_v1_hint / parse_hint / Transit.add_connection_hints / _connect "
+          "/ Connector._use_hints / describe / endpoint helpers is type-safe (0 sinks on the current tree; 21 on the tree before the "
+          "fix:); hint objects are built only from hostname:str and the JSON integer port itself, for the two supported types, "
+          "unparseable hints are dropped; encode_hint/get_connection_hints write exactly the keys, type strings and field mapping the "
+          "parsers read. A non-object in hint position is outside the property's quantifier and not reported. DNS/endpoints out of scope.",
+          "T1, T2; exceptions caught by an enclosing try in the same function are honoured", "DESIGN.md 4/C20")
